@@ -179,6 +179,7 @@ fn main() {
         "snap" => snap::snap_cmd(&args),
         "cpp-export" => cppexport::export_cmd(&args),
         "mapping-histories" => targets::mapping_histories(&args),
+        "pool-histories" => targets::pool_histories(&args),
         _ => {
             eprintln!("usage: vh cases|run|explore|replay ...");
             std::process::exit(2);
